@@ -500,10 +500,13 @@ def rm_call(ctx):
                     pp = param_path(v)
                     if pp and pp[0] == 2 and pp[1] and pp[1][-1].startswith('Rm.') and pp[1][-1] != 'Rm.clock':
                         elems.append(a)
-                    elif is_call(v, 'collect') and v[2] and whole_iteration_over(v[2][0], 2) and not iter_source(v[2][0])[2]:
-                        bp = param_path(iter_source(v[2][0])[0])
-                        if bp[1] and bp[1][-1].startswith('Rm.') and bp[1][-1] != 'Rm.clock':
-                            elems.append(a)
+                    else:
+                        from .loops import collect_source
+                        cs = collect_source(facts, body, it, a.val)
+                        if cs is not None and whole_iteration_over(cs, 2) and not iter_source(cs)[2]:
+                            bp = param_path(iter_source(cs)[0])
+                            if bp[1] and bp[1][-1].startswith('Rm.') and bp[1][-1] != 'Rm.clock':
+                                elems.append(a)
                 if clocks and elems:
                     good.append(bb)
                 else:
